@@ -45,6 +45,7 @@ var genPcQueries []pcQuery
 type pcQuery struct {
 	to   common.Address
 	data []byte
+	tx   bool // a precompile transaction (Cosmos-side effect), made with CALL instead of STATICCALL
 }
 
 type pstep struct {
@@ -105,7 +106,11 @@ func genProg(rng *rand.Rand, depth int, eoas []common.Address, fresh func() comm
 		}
 		if len(genPcQueries) > 0 && rng.Intn(3) == 0 {
 			q := genPcQueries[rng.Intn(len(genPcQueries))]
-			p.plan = append(p.plan, pstep{kind: "pcquery", to: q.to, data: q.data})
+			kind := "pcquery"
+			if q.tx {
+				kind = "pctx"
+			}
+			p.plan = append(p.plan, pstep{kind: kind, to: q.to, data: q.data})
 		}
 		switch k := rng.Intn(9); {
 		case k == 0:
@@ -201,6 +206,8 @@ func deployProg(n *vn.Node, from vn.Account, p *pnode) ([]common.Address, error)
 			p.steps = append(p.steps, evmasm.Log{Topic: 42})
 		case "create":
 			p.steps = append(p.steps, evmasm.Create{Init: evmasm.InitCode([]evmasm.Step{evmasm.SStore{Slot: 1, Val: 1}}, []evmasm.Step{evmasm.Stop{}}), Value: st.val, Fail: evmasm.Ignore})
+		case "pctx":
+			p.steps = append(p.steps, evmasm.CallStep{Kind: evmasm.Call, To: st.to, Data: st.data, Fail: evmasm.Ignore})
 		case "pcquery":
 			p.steps = append(p.steps, evmasm.CallStep{Kind: evmasm.StaticCall, To: st.to, Data: st.data, Fail: evmasm.Ignore})
 		case "send-eoa", "send-fresh":
